@@ -66,6 +66,10 @@ class Profile:
     allow_empty: bool = True
     hkeys: int = 16
     tkeys: int = 4
+    p_late_attrs: int = 12              # flags / window / timeouts assigned after construction
+    p_inspect: int = 10                 # read-only inspection calls at every quiescent point
+    p_exc: int = 25                     # among raising jobs: a builtin exception class
+    p_label: int = 10                   # an odd label (braces, quotes, %, newline...)
     p_big: int = 8                      # % of schedulers that may have up to big_members
     big_members: int = 9
     force_nested: int = 0               # % of cases whose top has a nested scheduler for sure
@@ -75,6 +79,10 @@ class Profile:
 
 
 GENERAL = Profile()
+ODD_LABELS = ['{}', '{0}', '{x}', "awk '{print $1}'", '%s %d', '100%', 'a "quoted" one',
+              'two\nlines', '', ' ', 'é→中', '${HOME}', '}{', 'x' * 60]
+EXC_NAMES = ['TimeoutError', 'KeyError', 'ValueError', 'OSError', 'RuntimeError',
+             'LookupError', 'AssertionError']
 
 
 def _draw_job(draw, prof, wild):
@@ -82,14 +90,21 @@ def _draw_job(draw, prof, wild):
     d = draw(weighted(prof.durations))
     if (forever or wild) and chance(draw, prof.p_never if forever else 25):
         d = 'tick' if chance(draw, prof.p_tick) else 'never'
+    extra = {}
+    if chance(draw, prof.p_label):
+        extra['label'] = draw(st.sampled_from(ODD_LABELS))
+    if chance(draw, prof.p_exc):
+        extra['exc'] = draw(st.sampled_from(EXC_NAMES))
     return dict(
+        **extra,
         kind='job', id=None,
         cls='coroutine' if chance(draw, prof.p_coroutine) else 'abstract',
         d=d, k=draw(weighted(prof.ks)),
         outcome='raise' if chance(draw, prof.p_raise) else 'return',
         critical=chance(draw, prof.p_critical), forever=forever,
         c=draw(weighted(prof.cs)), sd=draw(weighted(prof.sds)),
-        hkey=draw(st.integers(0, prof.hkeys - 1)), tkey=draw(st.integers(0, prof.tkeys - 1)))
+        hkey=draw(st.integers(0, prof.hkeys - 1)), tkey=draw(st.integers(0, prof.tkeys - 1)),
+        late_attrs=chance(draw, prof.p_late_attrs))
 
 
 def may_never_end(member):
@@ -180,7 +195,9 @@ def _draw_sched(draw, prof, depth, under_timeout, budget, top=False):
         members=members, edges=edges,
         order=list(draw(st.permutations(list(range(n))))) if n > 1 else list(range(n)),
         build=draw(weighted((('ctor', 3), ('add', 2), ('update', 1), ('mixed', 1)))),
-        wild=wild)
+        wild=wild, late_attrs=chance(draw, prof.p_late_attrs))
+    if chance(draw, prof.p_label):
+        sched['label'] = draw(st.sampled_from(ODD_LABELS))
     if window and not wild:
         never = sum(1 for m in members if may_never_end(m))
         if window <= never:
@@ -210,6 +227,7 @@ def assign_ids(spec):
 def scenarios(draw, prof=GENERAL):
     budget = [prof.max_jobs]
     top = _draw_sched(draw, prof, 0, False, budget, top=True)
+    top['inspect'] = chance(draw, prof.p_inspect)
     return assign_ids(top)
 
 
